@@ -90,7 +90,7 @@ def run(ck, F, tier):
     llr_arg, it_arg = dec[0].args[1], dec[0].args[2]
     # decoder input: depuncture(llrs).unwrap() when self.puncturer is Some, else the caller's llrs. All spellings
     # (map + if let, map + as_deref().unwrap_or, match, map_or) have the normal form match(as_ref(puncturer), Some -> .., None -> llrs)
-    PUN = app("std::option::Option::<T>::as_ref", var("self.puncturer"))
+    PUN = var("self.puncturer")
     want_llrs = [app("match", o, ((repr(("Some", "_")), app("std::result::Result::<T, E>::unwrap", app("simulation::puncturing::Puncturer::depuncture", app("payload0", o), var("llrs")))),
                                   (repr("None"), var("llrs")))) for o in (PUN, var("self.puncturer"))]
     sel_ok = llr_arg in want_llrs
